@@ -73,7 +73,7 @@ def run_property(prop, tier, seed, opts):
 
     # ---- 1. L1: generate + discharge ---------------------------------------
     timeouts = (10, 20, 40) if tier == "quick" else (30, 60, 120)
-    results, tm = V.verify_units(l1, D.REPO, outdir, timeouts=timeouts)
+    results, tm = V.verify_units(l1, D.REPO, outdir, timeouts=timeouts, group=getattr(opts, "group", None))
     n_obl = n_dis = 0
     by_solver = {}
     solver_time = 0.0
@@ -150,7 +150,7 @@ def run_property(prop, tier, seed, opts):
         need_bounded.setdefault(c.key, []).append((r, o, args, out))
 
     # ---- 3. L2 bounded stand-ins ------------------------------------------------
-    bounded_targets = [c for c in mine if c.domain is not None]
+    bounded_targets = [c for c in mine if c.domain is not None and not getattr(opts, "no_bounded", False)]
     for key in need_bounded:
         c = reg[key]
         if c.domain is not None and c not in bounded_targets:
@@ -245,8 +245,9 @@ def run_property(prop, tier, seed, opts):
         "coverage": cov, "assumptions": rep.assumptions + cfg.get("assumptions", []),
         "wall_s": round(time.time() - rep.t0, 2), "violations": len(rep.violations),
     }
-    os.makedirs(os.path.join(VERIF, "evidence"), exist_ok=True)
-    with open(os.path.join(VERIF, "evidence", f"{prop}.json"), "w") as f:
+    evdir = os.environ.get("VERIF_EVIDENCE_DIR", os.path.join(VERIF, "evidence"))
+    os.makedirs(evdir, exist_ok=True)
+    with open(os.path.join(evdir, f"{prop}.json"), "w") as f:
         json.dump(ev, f, indent=1, default=str)
 
     if opts.update_baseline:
